@@ -64,6 +64,10 @@ UNIT = {
              ('seq', 'it.seq() =~= items@.map_values(|v: Value| &v)'),
              ('none_so_far', 'forall |j: int| 0 <= j < it.index@ ==> !((#[trigger] items@[j]) is List && veq(*list, items@[j]))')],
              'body_prefix': ITEM}}},
+        {'kind': 'closure', 'src': B, 'path': 'fn build_out', 'name': 'op_out', 'key': 'member::build_out', 'props': P, 'auto_props': A, 'loops': 0, 'ret': 'r',
+         'rewrites': [('R3',)],
+         'ensures': [('an_output_entry_within_the_output_values_is_returned_as_it_is', 'inv == Value::Boolean(true) ==> r == lhv'),
+                     ('one_outside_them_is_null', 'inv != Value::Boolean(true) ==> r is Null')]},
         {'kind': 'closure', 'src': B, 'path': 'fn build_in', 'name': 'op_in', 'key': 'member::build_in', 'props': P, 'auto_props': A, 'loops': 0, 'ret': 'r',
          'rewrites': [('R3',)], 'body_prefix': ORD,
          'ensures': [('the_value_in_denotes', 'in_denotes(lhv, rhv, r)')]},
